@@ -184,6 +184,69 @@ func checkTruth(r *vk.Run, c TruthCase) *vk.Fail {
 	return nil
 }
 
+// ---- part A2: one test site, values of changing kind -------------------------------------------
+
+// SweepCase: ONE set of test sites (if, else-if, !, &&, ||, emitted !) is evaluated for several values in turn
+// within one render - as a loop body over a slice of the values, or as the body of a template function called once
+// per value. The truth value of what is tested now may not depend on what the same site tested before.
+type SweepCase struct {
+	Kinds []int  `json:"kinds"`
+	Mode  string `json:"mode"` // loop | fn
+}
+
+const sweepBody = `<%= if (v) { %>T<% } else { %>F<% } %><%= if (false) { %>X<% } else if (v) { %>T<% } else { %>F<% } %>` +
+	`<%= if (!v) { %>F<% } else { %>T<% } %><%= if (v && true) { %>T<% } else { %>F<% } %><%= if (false || v) { %>T<% } else { %>F<% } %><%= !v %>,`
+
+func sweepable(k kind) bool {
+	if k.mk == nil {
+		return false // helper results, the unknown identifier and the nil literal are not values that can be passed on
+	}
+	return k.mk() != nil
+}
+
+func checkSweep(r *vk.Run, c SweepCase) *vk.Fail {
+	defer r.Watch("sweep", c)()
+	var vals []interface{}
+	want := ""
+	names := []string{}
+	data := map[string]interface{}{}
+	for i, ki := range c.Kinds {
+		k := kinds[ki]
+		v := k.mk()
+		vals = append(vals, v)
+		data[fmt.Sprintf("a%d", i)] = v
+		names = append(names, k.name)
+		if k.truthy {
+			want += "TTTTTfalse,"
+		} else {
+			want += "FFFFFtrue,"
+		}
+	}
+	data["vals"] = vals
+	src := ""
+	switch c.Mode {
+	case "loop":
+		src = `<%= for (v) in vals { %>` + sweepBody + `<% } %>`
+	case "fn":
+		src = `<% let f = fn(v) { %>` + sweepBody + `<% } %>`
+		for i := range c.Kinds {
+			src += fmt.Sprintf(`<%%= f(a%d) %%>`, i)
+		}
+	default:
+		return &vk.Fail{Kind: "decode", Msg: "unknown mode"}
+	}
+	res := vk.Safe(func() (string, error) { return plush.Render(src, plush.NewContextWith(data)) })
+	nt := fmt.Sprintf("sweep|%v|%s", c.Kinds, c.Mode)
+	r.Count(nt, "sweep/"+c.Mode)
+	r.Sample(func() interface{} {
+		return map[string]interface{}{"values": names, "template": src, "expected": want}
+	})
+	if res.Panicked() || res.Err != nil || res.Out != want {
+		return &vk.Fail{Kind: "sweep", Case: c, Msg: fmt.Sprintf("values %q tested one after the other by one set of sites: %s gave %s, want %q", names, src, res, want)}
+	}
+	return nil
+}
+
 // ---- part B: chains ---------------------------------------------------------------
 
 // ChainCase: conditions are c(i, value) where value is one of the spellings below.
@@ -388,7 +451,7 @@ func checkNestSrc(r *vk.Run, prog []model.Node, src string, c NestCase) *vk.Fail
 	return nil
 }
 
-const rule = "(A, exhaustive) 53 value kinds (nil, bools, strings incl. \"false\"/\"0\", trusted HTML, typed nil pointers, non-nil pointers to zero values, unknown identifier, nil context value, every numeric width at 0, empty and non-empty slices/arrays/maps/structs, func, iterator, time, helper results) x 23 test positions (if, else-if, second else-if, !, !!, &&/|| on either side, emitted ! && ||, inside for / function / block helper, silent if, && in a silent tag, and five sequences in which a name is first tested while unknown, then bound by a loop variable / parameter / helper-context data and tested again), via a variable and via the literal spelling where one exists: the truth value must be the same everywhere and equal the table in the property. plus 13 conditions that are arithmetic / concatenation expressions (value tested, e.g. 0 + 0 is truthy, \"\" + \"\" falsy) x 6 positions. (B, exhaustive) every chain of 1..4 branches x every assignment of 9 condition values x with/without else x 5 placements, each condition wrapped in a recording helper: output = block of the first truthy branch, conditions evaluated = exactly the prefix up to it. (C, random) nested if/else-if/else chains with !, && and || conditions inside loops, compared with the reference interpreter incl. the evaluation trace. Non-trivial: every matrix cell and chain is (distinct by cell / chain / template)."
+const rule = "(A, exhaustive) 53 value kinds (nil, bools, strings incl. \"false\"/\"0\", trusted HTML, typed nil pointers, non-nil pointers to zero values, unknown identifier, nil context value, every numeric width at 0, empty and non-empty slices/arrays/maps/structs, func, iterator, time, helper results) x 23 test positions (if, else-if, second else-if, !, !!, &&/|| on either side, emitted ! && ||, inside for / function / block helper, silent if, && in a silent tag, and five sequences in which a name is first tested while unknown, then bound by a loop variable / parameter / helper-context data and tested again), via a variable and via the literal spelling where one exists: the truth value must be the same everywhere and equal the table in the property. plus 13 conditions that are arithmetic / concatenation expressions (value tested, e.g. 0 + 0 is truthy, \"\" + \"\" falsy) x 6 positions. (A2, exhaustive + random) one set of six test sites (if, else-if, !, && , ||, emitted !) evaluated for several values in turn within one render - loop body over a slice of the values, or a template function called once per value: every ordered pair (A, B) of the 44 passable value kinds tested A, B, A, and random sequences of 2-8 kinds. (B, exhaustive) every chain of 1..4 branches x every assignment of 9 condition values x with/without else x 5 placements, each condition wrapped in a recording helper: output = block of the first truthy branch, conditions evaluated = exactly the prefix up to it. (C, random) nested if/else-if/else chains with !, && and || conditions inside loops, compared with the reference interpreter incl. the evaluation trace. Non-trivial: every matrix cell and chain is (distinct by cell / chain / template)."
 
 func setup(t *testing.T) *vk.Run {
 	r := vk.Start(t, "C07", rule,
@@ -418,6 +481,18 @@ func setup(t *testing.T) *vk.Run {
 			return &vk.Fail{Kind: "decode", Msg: "index out of range"}
 		}
 		return checkChain(r, c)
+	})
+	r.Replayer("sweep", func(raw json.RawMessage) *vk.Fail {
+		var c SweepCase
+		if f := vk.Decode(raw, &c); f != nil {
+			return f
+		}
+		for _, k := range c.Kinds {
+			if k < 0 || k >= len(kinds) || !sweepable(kinds[k]) {
+				return &vk.Fail{Kind: "decode", Msg: "kind cannot be swept"}
+			}
+		}
+		return checkSweep(r, c)
 	})
 	r.Replayer("arith", func(raw json.RawMessage) *vk.Fail {
 		var c map[string]string
@@ -497,6 +572,32 @@ func TestProp(t *testing.T) {
 		}
 	}
 	r.Subspace("truth table: value kinds x test positions (variable and literal spellings) + 13 arithmetic/concatenation conditions x 6 positions", n, true)
+
+	// A2: every ordered pair of passable value kinds, tested A, B, A by one set of sites
+	var sw []int
+	for ki, k := range kinds {
+		if sweepable(k) {
+			sw = append(sw, ki)
+		}
+	}
+	var ns int64
+	for _, a := range sw {
+		for _, b := range sw {
+			if a == b {
+				continue
+			}
+			for _, mode := range []string{"loop", "fn"} {
+				if r.Mine(ns) {
+					r.Check(checkSweep(r, SweepCase{Kinds: []int{a, b, a}, Mode: mode}))
+				}
+				ns++
+			}
+		}
+	}
+	r.Subspace("sweeps: every ordered pair (A, B) of passable value kinds tested A, B, A by one set of six test sites x {loop body, function body}", ns, true)
+	r.Rapid("sweeps", r.Pick(300, 5000), func(t *rapid.T) *vk.Fail {
+		return checkSweep(r, SweepCase{Kinds: rapid.SliceOfN(rapid.SampledFrom(sw), 2, 8).Draw(t, "kinds"), Mode: rapid.SampledFrom([]string{"loop", "fn"}).Draw(t, "mode")})
+	})
 
 	maxB := 4
 	nv := int64(len(condVals))
